@@ -464,11 +464,15 @@ def stepRetain (s : State) (i : Nat) (keep : List Bool) : Option State :=
 
 /-! ### `status` -/
 
+/-- what `Pool::status()` computes: `(max_size, size, available, waiting)` -/
+def State.status (s : State) : Nat × Nat × Nat × Nat :=
+  if s.users < s.size then (s.maxSize, s.size, s.size - s.users, 0)
+  else (s.maxSize, s.size, 0, s.users - s.size)
+
 def stepStatus (s : State) (i : Nat) : Option State :=
   if !s.lockFree i then none else
-  let (available, waiting) :=
-    if s.users < s.size then (s.size - s.users, 0) else (0, s.users - s.size)
-  some ((s.setOp i .done).emit [.status i s.maxSize s.size available waiting])
+  let st := s.status
+  some ((s.setOp i .done).emit [.status i st.1 st.2.1 st.2.2.1 st.2.2.2])
 
 /-! ### the transition function -/
 
